@@ -55,6 +55,8 @@ type BQLReq struct {
 	Runs   []RunSpec   `json:"runs"`
 	Leak   bool        `json:"leak,omitempty"`
 	Fault  *FaultSpec  `json:"fault,omitempty"`
+	// MaxTriples > 0: stop running further statements once a dumped state holds more triples.
+	MaxTriples int `json:"max_triples,omitempty"`
 }
 
 // RunResult is the outcome of one statement.
@@ -68,6 +70,7 @@ type RunResult struct {
 	Leaked   []string                      `json:"leaked,omitempty"`
 	State    map[string][]model.TripleSpec `json:"state,omitempty"`
 	Names    []string                      `json:"names,omitempty"`
+	Dumped   bool                          `json:"dumped,omitempty"`
 	Micros   int64                         `json:"us,omitempty"`
 	ReadOnly bool                          `json:"ro,omitempty"` // SELECT or SHOW
 	// fault injection
@@ -79,8 +82,9 @@ type RunResult struct {
 
 // BQLResp is the worker's answer.
 type BQLResp struct {
-	Results []RunResult `json:"results"`
-	Err     string      `json:"err,omitempty"`
+	Results   []RunResult `json:"results"`
+	Err       string      `json:"err,omitempty"`
+	Truncated bool        `json:"truncated,omitempty"`
 }
 
 func cellVal(c *table.Cell) bq.Val {
@@ -275,6 +279,19 @@ func handleBQL(req []byte) []byte {
 	}
 	var resp BQLResp
 	for _, run := range r.Runs {
+		if r.MaxTriples > 0 && len(resp.Results) > 0 {
+			// stop a history whose data has grown beyond the bound (repeated CONSTRUCT
+			// with FROM == INTO grows combinatorially); the caller checks the prefix
+			last := resp.Results[len(resp.Results)-1]
+			n := 0
+			for _, ts := range last.State {
+				n += len(ts)
+			}
+			if n > r.MaxTriples || len(last.Rows) > 4*r.MaxTriples {
+				resp.Truncated = true
+				break
+			}
+		}
 		oldProcs := 0
 		if run.Procs > 0 {
 			oldProcs = runtime.GOMAXPROCS(run.Procs)
@@ -315,7 +332,7 @@ func handleBQL(req []byte) []byte {
 			if err != nil {
 				res.Err += " | dump: " + err.Error()
 			}
-			res.State, res.Names = state, names
+			res.State, res.Names, res.Dumped = state, names, err == nil
 		}
 		if rec != nil {
 			for i, c := range rec.Calls {
